@@ -51,7 +51,7 @@ def cmd_import(src, tag=''):
         full = os.path.join(src, pdir)
         if not os.path.isdir(full) or not pdir.startswith('C'):
             continue
-        for k in (1, 2, 3):
+        for k in (1, 2, 3, 4):
             patch = os.path.join(full, 'refac_%d.diff' % k)
             demo = os.path.join(full, 'refac_demo_%d.py' % k)
             meta = os.path.join(full, 'refac_meta_%d.json' % k)
